@@ -10,6 +10,8 @@
 //! `ImportCmd::run` prints for the same scratch files. `parse_ledger(text)` must succeed, contain exactly
 //! one transaction per tree transaction (and nothing else), and every re-read transaction must equal
 //! its tree field by field (numbers by value; the scale must be max(tree scale, configured precision)).
+//! For the shapes with a simple sign rule the built numbers are also compared with an independent exact
+//! reading (crate::q::Q) of the statement cells (`statement-value-differs-*`).
 //!
 //! Violation signatures are `<clause>/<cause>`: the clause is the first symptom (reparse-fails,
 //! extra-transaction, extra-posting, reread-differs-<tree field>, ...), the cause is the smallest
@@ -25,17 +27,19 @@ use okane_core::parse::{parse_ledger, ParseOptions};
 use okane_core::syntax::{self, expr, plain};
 
 use crate::fw::{CheckDef, Ctx, Outcome};
+use crate::q::Q;
 use crate::oka;
 
 pub const DEF: CheckDef = CheckDef {
     id: "C15",
     run,
     technique: "bounded-exhaustive enumeration of statement records (field alphabets, all records with <= d non-plain fields) for the CSV, Camt053 and Viseca importers; differential oracle: importer-built syntax tree versus okane's own parser applied to the text printed by the real ImportCmd::run; violating cases are reduced to their smallest violating sub-set of non-plain fields, which names the signature",
-    rule: "case = (shape, precision, record). 15 shapes: csv-basic (index columns, liability, code+payee split by a rewrite rule, note, commodity column, balance), csv-credit-debit (label columns, tab delimiter, a 50-column account name so that the amount column overflows), csv-multi (rate, secondary amount/commodity, charge, conversion mode), csv-template (payee = '{category} - {note}', new_to_old), camt-<source> for the 7 text elements a rewrite rule can copy into the payee (creditor, debtor, ultimate creditor/debtor name, remittance info, additional transaction/entry info) each with AcctSvcrRef as code and booking date != value date, camt-entry-only (no TxDtls), camt-numeric (amounts, currency, TxAmt+CcyXchg, charges, opening/closing balance), viseca-basic, viseca-fx. Text alphabet (21): plain, semicolon, lparen, rparen, star, bang, digit-date, double-space, tab, leading-blank, trailing-blank, newline, newline-indent (an indented posting line), newline-date (a dated header line), cr, word-tag, key-value, cjk, empty, equals-at, long. Numeric alphabet: plain, 1,234.50, -0.5, CHF 12.00, $1.46, .02, 0, 12.345, and absent/present for optional columns (Viseca: plain, 1'234.50, .02, 0, 5, 1.2.3, 12.345). Commodity alphabet: plain, empty, $, 'US D', BRK.B, 'A;B'. Every statement carries the tested record followed by one plain anchor record. Precision of CHF/USD/EUR/VYM in {none,2,4}. ALL records with <= 2 (quick) / <= 3 (thorough) non-plain fields. Plus the layout-boundary family: for one CSV, one Camt053 and one Viseca shape the configured account and the rewrite (counter) account (cleared and pending) take every display width 1..=64 (ASCII; CSV also names with wide CJK characters; thorough: full 64x64 product for CSV) x 4-5 amount spellings of different printed widths and both signs x precision {none,2,4} x with/without running balance. states = statements imported (incl. minimisation re-runs), transitions = transactions compared field by field",
+    rule: "case = (shape, precision, record). 15 shapes: csv-basic (index columns, liability, code+payee split by a rewrite rule, note, commodity column, balance), csv-credit-debit (label columns, tab delimiter, a 50-column account name so that the amount column overflows), csv-multi (rate, secondary amount/commodity, charge, conversion mode), csv-template (payee = '{category} - {note}', new_to_old), camt-<source> for the 7 text elements a rewrite rule can copy into the payee (creditor, debtor, ultimate creditor/debtor name, remittance info, additional transaction/entry info) each with AcctSvcrRef as code and booking date != value date, camt-entry-only (no TxDtls), camt-numeric (amounts, currency, TxAmt+CcyXchg, charges, opening/closing balance), viseca-basic, viseca-fx. Text alphabet (21): plain, semicolon, lparen, rparen, star, bang, digit-date, double-space, tab, leading-blank, trailing-blank, newline, newline-indent (an indented posting line), newline-date (a dated header line), cr, word-tag, key-value, cjk, empty, equals-at, long. Numeric alphabet: plain, 1,234.50, -0.5, CHF 12.00, $1.46, .02, 0, 12.345, and absent/present for optional columns (Viseca: plain, 1'234.50, .02, 0, 5, 1.2.3, 12.345). Commodity alphabet: plain, empty, $, 'US D', BRK.B, 'A;B'. CSV amount/credit/debit/balance cells of csv-basic and csv-credit-debit additionally take the sign placements -$12.50, $-12.50, $-1,234.50, USD -20, -USD 20, -20 USD and are compared with an independent exact reading of the cell (sign rule of the shape applied). The configured operator of the charge-printing shapes (csv-multi, csv-template, camt-entry-only, camt-numeric, viseca-fx) takes plain, trailing newline, blank-padded, inner double blank, ';', inner newline. Every statement carries the tested record followed by one plain anchor record. Precision of CHF/USD/EUR/VYM in {none,2,4}. ALL records with <= 2 (quick) / <= 3 (thorough) non-plain fields. Plus the layout-boundary family: for one CSV, one Camt053 and one Viseca shape the configured account and the rewrite (counter) account (cleared and pending) take every display width 1..=64 (ASCII; CSV also names with wide CJK characters; thorough: full 64x64 product for CSV) x 4-5 amount spellings of different printed widths and both signs x precision {none,2,4} x with/without running balance. states = statements imported (incl. minimisation re-runs), transitions = transactions compared field by field",
     assumptions: &[
         "the tree is built in the harness by the same public calls as ImportCmd::run (load_from_yaml, ConfigSet::select, import::import, Txn::to_double_entry) on the same scratch files, reading the file as UTF-8 bytes without encoding_rs_io (identical for the BOM-less UTF-8 statements generated here)",
         "text that the importer trims / splits / rejects before building the tree is not judged (tree vs re-read text only); records the importer rejects are DON'T-CARE",
-        "account names, operator and rewrite rules come from the configuration and are plain; only statement content varies",
+        "account names and rewrite rules come from the configuration and are plain (account names of every width in the layout family); the configured operator is part of the alphabet for the shapes that print charges",
+        "value reference: csv-basic (liability: amount column negated, counter posting opposite, balance as written) and csv-credit-debit (exactly one of credit/debit filled in) only; a cell is negative iff exactly one minus stands before its first digit; cells outside that reading, other shapes and statements okane rejects are not value-judged",
         "scale clause: re-read scale must equal max(tree scale, configured precision of that commodity)",
     ],
     shards: 64,
@@ -104,6 +108,25 @@ const VNUM_KINDS: &[(&str, &str)] = &[
     ("scale3", "12.345"),
 ];
 
+/// where the minus sign of a cell with a commodity sits (CSV cells only; appended to the numeric alphabet)
+const SIGN_KINDS: &[(&str, &str)] = &[
+    ("minus-symbol", "-$12.50"),
+    ("symbol-minus", "$-12.50"),
+    ("symbol-minus-grouped", "$-1,234.50"),
+    ("code-minus", "USD -20"),
+    ("minus-code", "-USD 20"),
+    ("minus-suffix-code", "-20 USD"),
+];
+
+/// spellings of the configured `operator` (printed as the `Payee` tag of charge postings)
+const OPERATOR_KINDS: &[(&str, &str)] = &[
+    ("trailing-newline", "Okane Bank (fee)\n"),
+    ("blank-padded", "  Okane Bank (fee) "),
+    ("double-blank", "Okane  Bank (fee)"),
+    ("semicolon", "Okane Bank; fees"),
+    ("inner-newline", "Okane Bank\n(fee)"),
+];
+
 const COMMODITY_KINDS: &[(&str, &str)] = &[("empty", ""), ("symbol", "$"), ("space", "US D"), ("dot", "BRK.B"), ("semicolon", "A;B")];
 
 fn alt(label: &'static str, v: &str) -> Alt {
@@ -149,6 +172,17 @@ fn num_or_absent(name: &'static str, role: &'static str, plain: &str, k: &[(&'st
     let mut alts = vec![alt("plain", plain), absent("absent")];
     alts.extend(kinds(k));
     Field { name, role, alts }
+}
+/// the configured operator: plain by default
+fn operator(plain: &str) -> Field {
+    let mut alts = vec![alt("plain", plain)];
+    alts.extend(kinds(OPERATOR_KINDS));
+    Field { name: "operator", role: "charge-payee", alts }
+}
+/// appends the sign-placement spellings to a numeric field
+fn signed(mut f: Field) -> Field {
+    f.alts.extend(kinds(SIGN_KINDS));
+    f
 }
 fn commodity(name: &'static str, role: &'static str, plain: &str) -> Field {
     let mut alts = vec![alt("plain", plain)];
@@ -203,17 +237,17 @@ fn shapes() -> Vec<Shape> {
             opt_text("code", "code", "785403"),
             text("note", "comment", "memo one"),
             commodity("commodity", "commodity", "CHF"),
-            num("amount", "amount", "5", NUM_KINDS),
-            opt_num("balance", "balance", "100", NUM_KINDS),
+            signed(num("amount", "amount", "5", NUM_KINDS)),
+            signed(opt_num("balance", "balance", "100", NUM_KINDS)),
         ],
     });
     v.push(Shape {
         name: "csv-credit-debit".into(),
         kind: Kind::CsvCreditDebit,
         fields: vec![
-            opt_num("credit", "amount", "5", NUM_KINDS),
-            num_or_absent("debit", "amount", "5", NUM_KINDS),
-            num_or_absent("balance", "balance", "100", NUM_KINDS),
+            signed(opt_num("credit", "amount", "5", NUM_KINDS)),
+            signed(num_or_absent("debit", "amount", "5", NUM_KINDS)),
+            signed(num_or_absent("balance", "balance", "100", NUM_KINDS)),
         ],
     });
     v.push(Shape {
@@ -231,6 +265,7 @@ fn shapes() -> Vec<Shape> {
                 "config",
                 &[("extract/price_of_secondary", "extract price_of_secondary"), ("compute/price_of_secondary", "compute price_of_secondary"), ("extract/price_of_primary", "extract price_of_primary"), ("compute/price_of_primary", "compute price_of_primary")],
             ),
+            operator("Okane Bank (commission)"),
         ],
     });
     v.push(Shape {
@@ -244,6 +279,7 @@ fn shapes() -> Vec<Shape> {
             num_or_absent("price", "rate", "60.5", NUM_KINDS),
             opt_num("fees", "charge", "0.5", NUM_KINDS),
             num("amount", "amount", "-121.5", NUM_KINDS),
+            operator("Broker Schrank"),
         ],
     });
     for (i, (label, _)) in CAMT_SOURCES.iter().enumerate() {
@@ -254,7 +290,7 @@ fn shapes() -> Vec<Shape> {
     }
     // AddtlNtryInf: with TxDtls (code present) and entry-only (no TxDtls, hence no code)
     v.push(Shape { name: "camt-AddtlNtryInf".into(), kind: Kind::CamtText(6), fields: vec![text_or_absent("AcctSvcrRef", "code", "20211031/1/1"), text("source", "payee", "Yamada Shop")] });
-    v.push(Shape { name: "camt-entry-only".into(), kind: Kind::CamtEntryOnly, fields: vec![text("source", "payee", "Yamada Shop"), num("amount", "amount", "5", NUM_KINDS), opt_num("charge", "charge", "1.5", NUM_KINDS)] });
+    v.push(Shape { name: "camt-entry-only".into(), kind: Kind::CamtEntryOnly, fields: vec![text("source", "payee", "Yamada Shop"), num("amount", "amount", "5", NUM_KINDS), opt_num("charge", "charge", "1.5", NUM_KINDS), operator("Okane Bank (fee)")] });
     v.push(Shape {
         name: "camt-numeric".into(),
         kind: Kind::CamtNum,
@@ -268,6 +304,7 @@ fn shapes() -> Vec<Shape> {
             opt_num("charge-not-included", "charge", "1.5", NUM_KINDS),
             num_or_absent("opening-balance", "balance", "100", NUM_KINDS),
             num_or_absent("closing-balance", "balance", "74.5", NUM_KINDS),
+            operator("Okane Bank (fee)"),
         ],
     });
     v.push(Shape {
@@ -288,6 +325,7 @@ fn shapes() -> Vec<Shape> {
             choice("fee-line", "charge", &[("processing-fee", "Processing fee"), ("credit-of-fee", "Credit of processing fee"), ("none", "-")]),
             num("fee", "charge", "0.90", VNUM_KINDS),
             choice("sign", "amount", &[("charge", ""), ("refund", " -")]),
+            operator("Okane Card (fee)"),
         ],
     });
     v
@@ -303,6 +341,51 @@ struct Rendered {
     ext: &'static str,
     /// transactions the statement describes (records, plus the opening-balance transaction of camt)
     records: usize,
+    /// values the statement cells dictate for the built tree (independent reference, exact rationals)
+    expect: Vec<Expect>,
+}
+
+/// One number of the built tree that is dictated by a statement cell.
+#[derive(Clone, Debug)]
+struct Expect {
+    /// index of the transaction in import order
+    txn: usize,
+    /// the posting on the configured (source) account, or the single other posting
+    source: bool,
+    /// the balance assertion instead of the amount
+    balance: bool,
+    value: Q,
+    /// how the reference got there, for the report
+    why: String,
+}
+
+/// Independent reading of a numeric statement cell: digits with optional `,` grouping and one `.`,
+/// negative iff exactly one `-` stands before the first digit (before or after a commodity prefix).
+/// Anything else (two signs, a sign after the digits, two points, no digit) has no reference value.
+fn cell_value(cell: &str) -> Option<Q> {
+    let kept: String = cell.chars().filter(|c| c.is_ascii_digit() || matches!(c, '.' | ',' | '-')).collect();
+    let (neg, body) = match kept.strip_prefix('-') {
+        Some(b) => (true, b),
+        None => (false, kept.as_str()),
+    };
+    if body.contains('-') || body.matches('.').count() > 1 || !body.chars().any(|c| c.is_ascii_digit()) {
+        return None;
+    }
+    // the sign must stand before the first digit in the cell itself, too
+    if neg && cell.find('-').unwrap() > cell.find(|c: char| c.is_ascii_digit()).unwrap() {
+        return None;
+    }
+    if let Some((ip, fp)) = body.split_once('.') {
+        if fp.contains(',') || ip.is_empty() && fp.is_empty() {
+            return None;
+        }
+    }
+    let q = Q::parse(body);
+    Some(if neg { q.neg() } else { q })
+}
+
+fn yaml_dq(s: &str) -> String {
+    format!("\"{}\"", s.replace('\\', "\\\\").replace('"', "\\\"").replace('\n', "\\n"))
 }
 
 fn yaml_precisions(p: Option<u8>) -> String {
@@ -347,7 +430,16 @@ fn render(shape: &Shape, prec: Option<u8>, v: &Vals) -> Rendered {
             let mut st = csv_row(&["date", "payee", "amount", "note", "balance", "commodity"], ',');
             st.push_str(&csv_row(&["2024-01-05", &payee_cell, g(4), g(2), g(5), g(3)], ','));
             st.push_str(&csv_row(&["2024-01-06", "Migros Grocery", "20.5", "anchor memo", "", "CHF"], ','));
-            Rendered { config, statement: st, ext: "csv", records: 2 }
+            // liability: the statement-account posting carries -cell, the counter posting +cell; balance as written
+            let mut expect = vec![];
+            if let Some(a) = cell_value(g(4)) {
+                expect.push(Expect { txn: 0, source: true, balance: false, value: a.neg(), why: format!("amount cell {:?} of a liability account is booked negated", g(4)) });
+                expect.push(Expect { txn: 0, source: false, balance: false, value: a, why: format!("counter posting of the amount cell {:?}", g(4)) });
+            }
+            if let Some(b) = v[5].and_then(cell_value) {
+                expect.push(Expect { txn: 0, source: true, balance: true, value: b, why: format!("balance cell {:?}", g(5)) });
+            }
+            Rendered { config, statement: st, ext: "csv", records: 2, expect }
         }
         Kind::CsvCreditDebit => {
             let config = format!(
@@ -357,12 +449,27 @@ fn render(shape: &Shape, prec: Option<u8>, v: &Vals) -> Rendered {
             let mut st = csv_row(&["日付", "摘要", "預け入れ額", "引き出し額", "口座残高"], '\t');
             st.push_str(&csv_row(&["2024/01/05", "Coffee Shop", g(0), g(1), g(2)], '\t'));
             st.push_str(&csv_row(&["2024/01/06", "Migros Grocery", "", "20.5", ""], '\t'));
-            Rendered { config, statement: st, ext: "csv", records: 2 }
+            // exactly one of credit / debit filled in: +credit or -debit on the statement account (both: not judged here)
+            let mut expect = vec![];
+            let signed_value = match (g(0).is_empty(), g(1).is_empty()) {
+                (false, true) => cell_value(g(0)).map(|c| (c, format!("credit cell {:?}", g(0)))),
+                (true, false) => cell_value(g(1)).map(|d| (d.neg(), format!("debit cell {:?} is booked negated", g(1)))),
+                _ => None,
+            };
+            if let Some((a, why)) = signed_value {
+                expect.push(Expect { txn: 0, source: true, balance: false, value: a, why: why.clone() });
+                expect.push(Expect { txn: 0, source: false, balance: false, value: a.neg(), why: format!("counter posting of the {}", why) });
+            }
+            if let Some(b) = v[2].and_then(cell_value) {
+                expect.push(Expect { txn: 0, source: true, balance: true, value: b, why: format!("balance cell {:?}", g(2)) });
+            }
+            Rendered { config, statement: st, ext: "csv", records: 2, expect }
         }
         Kind::CsvMulti => {
             let (amode, rmode) = g(6).split_once(' ').expect("conversion mode");
             let config = format!(
-                "path: \".csv\"\nencoding: UTF-8\naccount: \"Assets:Okane Bank\"\naccount_type: asset\noperator: Okane Bank (commission)\ncommodity:\n  primary: CHF\n  conversion:\n    amount: {}\n    rate: {}\nformat:\n  date: \"%Y-%m-%d\"\n  fields:\n    date: 1\n    payee: 2\n    amount: 3\n    commodity: 4\n    rate: 5\n    secondary_amount: 6\n    secondary_commodity: 7\n    charge: 8\n{}rewrite:\n  - matcher:\n      payee: Wire\n    account: Assets:Wire\n",
+                "path: \".csv\"\nencoding: UTF-8\naccount: \"Assets:Okane Bank\"\naccount_type: asset\noperator: {}\ncommodity:\n  primary: CHF\n  conversion:\n    amount: {}\n    rate: {}\nformat:\n  date: \"%Y-%m-%d\"\n  fields:\n    date: 1\n    payee: 2\n    amount: 3\n    commodity: 4\n    rate: 5\n    secondary_amount: 6\n    secondary_commodity: 7\n    charge: 8\n{}rewrite:\n  - matcher:\n      payee: Wire\n    account: Assets:Wire\n",
+                yaml_dq(g(7)),
                 amode,
                 rmode,
                 yaml_precisions(prec)
@@ -370,18 +477,19 @@ fn render(shape: &Shape, prec: Option<u8>, v: &Vals) -> Rendered {
             let mut st = csv_row(&["date", "payee", "amount", "commodity", "rate", "secondary_amount", "secondary_commodity", "charge"], ',');
             st.push_str(&csv_row(&["2024-01-05", "Wire to Japan", g(2), g(0), g(3), g(4), g(1), g(5)], ','));
             st.push_str(&csv_row(&["2024-01-06", "Migros Grocery", "-20.5", "CHF", "", "", "", ""], ','));
-            Rendered { config, statement: st, ext: "csv", records: 2 }
+            Rendered { config, statement: st, ext: "csv", records: 2, expect: vec![] }
         }
         Kind::CsvTemplate => {
             let config = format!(
-                "path: \".csv\"\nencoding: UTF-8\naccount: \"Assets:Brokers:Schrank\"\naccount_type: asset\noperator: Broker Schrank\ncommodity:\n  primary: USD\nformat:\n  date: \"%m/%d/%Y\"\n  fields:\n    date: Date\n    payee:\n      template: \"{{category}} - {{4}}\"\n    category: Action\n    secondary_commodity: Symbol\n    secondary_amount: Quantity\n    rate: Price\n    charge: \"Fees & Comm\"\n    amount: Amount\n  row_order: new_to_old\n{}rewrite:\n  - account: Assets:Brokers:Schrank\n    matcher:\n    - category: Buy\n  - account: Income:Interest\n    matcher:\n    - category: Credit Interest\n",
+                "path: \".csv\"\nencoding: UTF-8\naccount: \"Assets:Brokers:Schrank\"\naccount_type: asset\noperator: {}\ncommodity:\n  primary: USD\nformat:\n  date: \"%m/%d/%Y\"\n  fields:\n    date: Date\n    payee:\n      template: \"{{category}} - {{4}}\"\n    category: Action\n    secondary_commodity: Symbol\n    secondary_amount: Quantity\n    rate: Price\n    charge: \"Fees & Comm\"\n    amount: Amount\n  row_order: new_to_old\n{}rewrite:\n  - account: Assets:Brokers:Schrank\n    matcher:\n    - category: Buy\n  - account: Income:Interest\n    matcher:\n    - category: Credit Interest\n",
+                yaml_dq(g(7)),
                 yaml_precisions(prec)
             );
             let mut st = csv_row(&["Date", "Action", "Symbol", "Description", "Quantity", "Price", "Fees & Comm", "Amount"], ',');
             // new_to_old: the anchor (newer) comes first in the file, the tested record is the older one
             st.push_str(&csv_row(&["01/06/2024", "Credit Interest", "", "SCHWAB1 INT", "", "", "", "$6.60"], ','));
             st.push_str(&csv_row(&["01/05/2024", g(0), g(2), g(1), g(3), g(4), g(5), g(6)], ','));
-            Rendered { config, statement: st, ext: "csv", records: 2 }
+            Rendered { config, statement: st, ext: "csv", records: 2, expect: vec![] }
         }
         Kind::CamtText(k) => {
             let mut e = CamtEntry::plain();
@@ -396,7 +504,7 @@ fn render(shape: &Shape, prec: Option<u8>, v: &Vals) -> Rendered {
                 6 => e.addtl_ntry = g(1),
                 _ => unreachable!(),
             }
-            Rendered { config: camt_config(prec, CAMT_SOURCES[k].1), statement: camt_doc(&[e, CamtEntry::anchor(k)], Some("100"), Some("74.5")), ext: "xml", records: 3 }
+            Rendered { config: camt_config(prec, CAMT_SOURCES[k].1, "Okane Bank (fee)"), statement: camt_doc(&[e, CamtEntry::anchor(k)], Some("100"), Some("74.5")), ext: "xml", records: 3, expect: vec![] }
         }
         Kind::CamtEntryOnly => {
             let mut e = CamtEntry::plain();
@@ -404,7 +512,7 @@ fn render(shape: &Shape, prec: Option<u8>, v: &Vals) -> Rendered {
             e.addtl_ntry = g(0);
             e.amt = g(1);
             e.entry_charge = v[2].map(|a| (a, true));
-            Rendered { config: camt_config(prec, "additional_entry_info"), statement: camt_doc(&[e, CamtEntry::anchor(6)], Some("100"), Some("74.5")), ext: "xml", records: 3 }
+            Rendered { config: camt_config(prec, "additional_entry_info", g(3)), statement: camt_doc(&[e, CamtEntry::anchor(6)], Some("100"), Some("74.5")), ext: "xml", records: 3, expect: vec![] }
         }
         Kind::CamtNum => {
             let mut e = CamtEntry::plain();
@@ -415,7 +523,7 @@ fn render(shape: &Shape, prec: Option<u8>, v: &Vals) -> Rendered {
             e.tx_charge = v[5].map(|a| (a, true));
             e.entry_charge = v[6].map(|a| (a, false));
             let records = 2 + if v[7].is_some() { 1 } else { 0 };
-            Rendered { config: camt_config(prec, "creditor_name"), statement: camt_doc(&[e, CamtEntry::anchor(0)], v[7], v[8]), ext: "xml", records }
+            Rendered { config: camt_config(prec, "creditor_name", g(9)), statement: camt_doc(&[e, CamtEntry::anchor(0)], v[7], v[8]), ext: "xml", records, expect: vec![] }
         }
         Kind::VisecaBasic => {
             let mut st = format!("04.01.24 05.01.24 {} {}{}\n", g(0), g(2), g(3));
@@ -424,7 +532,7 @@ fn render(shape: &Shape, prec: Option<u8>, v: &Vals) -> Rendered {
                 st.push('\n');
             }
             st.push_str("10.01.24 11.01.24 Migros Grocery 20.50\nGrocery stores\n");
-            Rendered { config: viseca_config(prec), statement: st, ext: "txt", records: 2 }
+            Rendered { config: viseca_config(prec, "Okane Card (fee)"), statement: st, ext: "txt", records: 2, expect: vec![] }
         }
         Kind::VisecaFx => {
             let mut st = format!("04.01.24 05.01.24 {} {} {} {}{}\nService stations\n", g(0), g(1), g(2), g(3), g(8));
@@ -435,21 +543,23 @@ fn render(shape: &Shape, prec: Option<u8>, v: &Vals) -> Rendered {
                 st.push_str(&format!("{} 1.75% CHF {}\n", g(6), g(7)));
             }
             st.push_str("10.01.24 11.01.24 Migros Grocery 20.50\nGrocery stores\n");
-            Rendered { config: viseca_config(prec), statement: st, ext: "txt", records: 2 }
+            Rendered { config: viseca_config(prec, g(9)), statement: st, ext: "txt", records: 2, expect: vec![] }
         }
     }
 }
 
-fn viseca_config(prec: Option<u8>) -> String {
+fn viseca_config(prec: Option<u8>, operator: &str) -> String {
     format!(
-        "path: \".txt\"\nencoding: UTF-8\naccount: \"Liabilities:Okane Card\"\naccount_type: liability\noperator: Okane Card (fee)\ncommodity: CHF\n{}rewrite:\n  - account: Expenses:Grocery\n    matcher:\n    - category: Grocery stores\n  - account: Expenses:Car:Gas\n    pending: true\n    matcher:\n    - category: Service stations\n",
+        "path: \".txt\"\nencoding: UTF-8\naccount: \"Liabilities:Okane Card\"\naccount_type: liability\noperator: {}\ncommodity: CHF\n{}rewrite:\n  - account: Expenses:Grocery\n    matcher:\n    - category: Grocery stores\n  - account: Expenses:Car:Gas\n    pending: true\n    matcher:\n    - category: Service stations\n",
+        yaml_dq(operator),
         if prec.is_some() { format!("format:\n{}", yaml_precisions(prec)) } else { String::new() }
     )
 }
 
-fn camt_config(prec: Option<u8>, source_key: &str) -> String {
+fn camt_config(prec: Option<u8>, source_key: &str, operator: &str) -> String {
     format!(
-        "path: \".xml\"\nencoding: UTF-8\naccount: \"Assets:Okane Bank\"\naccount_type: asset\noperator: Okane Bank (fee)\ncommodity: CHF\n{}rewrite:\n  - matcher:\n      {}: '(?s)^(?P<payee>.*)$'\n  - matcher:\n      payee: Grocery\n    account: Expenses:Grocery\n",
+        "path: \".xml\"\nencoding: UTF-8\naccount: \"Assets:Okane Bank\"\naccount_type: asset\noperator: {}\ncommodity: CHF\n{}rewrite:\n  - matcher:\n      {}: '(?s)^(?P<payee>.*)$'\n  - matcher:\n      payee: Grocery\n    account: Expenses:Grocery\n",
+        yaml_dq(operator),
         if prec.is_some() { format!("format:\n{}", yaml_precisions(prec)) } else { String::new() },
         source_key
     )
@@ -722,6 +832,33 @@ fn judge_rendered(env: &Env, r: &Rendered, prec: Option<u8>) -> Judgement {
     // one transaction per statement record
     if trees.len() != r.records {
         return Judgement::Bad { clause: "record-count".into(), detail: show(format!("the statement holds {} records but the importer built {} transactions", r.records, trees.len())) };
+    }
+
+    // ---- numbers dictated by the statement cells (independent reference) ----
+    for ex in &r.expect {
+        let t = &trees[ex.txn];
+        let posting = t.posts.iter().find(|p| (p.account.as_ref() as &str == entry.account.as_str()) == ex.source);
+        let got = posting.and_then(|p| if ex.balance { p.balance.as_ref() } else { p.amount.as_ref().map(|a| &a.amount) });
+        let got_q = match got {
+            Some(expr::ValueExpr::Amount(a)) => Some(Q::from_decimal(a.value.value)),
+            _ => None,
+        };
+        if got_q != Some(ex.value) {
+            let what = if ex.balance { "balance" } else { "amount" };
+            return Judgement::Bad {
+                clause: format!("statement-value-differs-{}", what),
+                detail: show(format!(
+                    "transaction #{}: the {} of the {} posting must be {} ({}), but the importer built {}\n--- tree built by the importer ---\n{:#?}",
+                    ex.txn + 1,
+                    what,
+                    if ex.source { "statement-account" } else { "counter" },
+                    ex.value,
+                    ex.why,
+                    got_q.map(|q| q.to_string()).unwrap_or_else(|| "nothing".into()),
+                    t
+                )),
+            };
+        }
     }
 
     // ---- re-read ----
@@ -1039,7 +1176,7 @@ fn layout_render(c: &LayoutCase) -> Rendered {
             let mut st = csv_row(&["date", "payee", "amount", "balance"], ',');
             st.push_str(&csv_row(&["2024-03-01", "City Power", c.amount, if c.balance { "100" } else { "" }], ','));
             st.push_str(&csv_row(&["2024-03-02", "Migros Grocery", "-20.5", ""], ','));
-            Rendered { config, statement: st, ext: "csv", records: 2 }
+            Rendered { config, statement: st, ext: "csv", records: 2, expect: vec![] }
         }
         "xml" => {
             let config = format!(
@@ -1055,7 +1192,7 @@ fn layout_render(c: &LayoutCase) -> Rendered {
             e.debit = c.flip;
             let closing = if c.balance { Some("74.5") } else { None };
             let records = 3;
-            Rendered { config, statement: camt_doc(&[e, CamtEntry::anchor(0)], Some("100"), closing), ext: "xml", records }
+            Rendered { config, statement: camt_doc(&[e, CamtEntry::anchor(0)], Some("100"), closing), ext: "xml", records, expect: vec![] }
         }
         _ => {
             let config = format!(
@@ -1066,7 +1203,7 @@ fn layout_render(c: &LayoutCase) -> Rendered {
                 pending
             );
             let st = format!("04.01.24 05.01.24 City Power {}{}\nUtilities\n10.01.24 11.01.24 Migros Grocery 20.50\nGrocery stores\n", c.amount, if c.flip { " -" } else { "" });
-            Rendered { config, statement: st, ext: "txt", records: 2 }
+            Rendered { config, statement: st, ext: "txt", records: 2, expect: vec![] }
         }
     }
 }
